@@ -183,3 +183,22 @@ def grid_goals(S, sa, d, f, tag, boundary, check_interp=True, out_len=1):
             ok = sym_and(ok, *[v[j] == want[j] for j in range(out_len)])
         S.prove(ok, tag + ':combined-interpolant-reproduces-F-at-every-sparse-grid-point')
     return count
+
+
+class ZeroErrors:
+    """Estimator that reports 0 everywhere and makes the strategy skip its surplus computation (used when only the
+    combined value / interpolant of a given refinement state is of interest)."""
+    is_global = True
+
+    def calc_global_error(self, data, grid_scheme):
+        return None
+
+    def calc_error(self, refine_object, norm, volume_weights=None):
+        return 0.0
+
+
+def evaluate_state(sa):
+    """Real evaluate_operation() on the current refinement state; returns the combined result."""
+    sa.operation.validation_set = None
+    sa.evaluate_operation()
+    return sa.operation.get_result()
